@@ -54,6 +54,11 @@ def evaluate(fa, c, datum, checks, opts=None, tuples=True):
             expected = None
             if "c02" in checks:
                 V("c02.branch", "choices-unusable", f"written union indices {idx} do not fit the datum: {type(e).__name__}: {e}")
+        if "c01" in checks and "c02" not in checks and expected is not None:
+            # a value that went to a branch it does not conform to cannot come back as the value it was
+            for kind, path, what in conform.check_choices(c.node, c.defs, datum, conform.Indices(idx), tuples):
+                if kind == "chosen-branch-does-not-conform":
+                    V("c01.value", "roundtrip-through-nonconforming-branch", f"{kind} at {path}: {what}")
         if "c02" in checks and expected is not None:
             probs = conform.check_choices(c.node, c.defs, datum, conform.Indices(idx), tuples)
             for kind, path, what in probs:
